@@ -654,6 +654,11 @@ func NewConfig(opts *CmdEnv, currentVersion ...string) (Config, error) {
 
 // Reload attempts to reload the configuration; if it has changed, it stores the
 // new data and calls the reload callbacks.
+//
+// Like NewConfig, Reload only refuses a configuration that has validation
+// errors. A changed configuration that merely has warnings (e.g. deprecations)
+// is applied, and the warnings are returned as a *FileConfigError for which
+// HasErrors() is false.
 func (f *fileConfig) Reload(opts ...ReloadedConfigDataOption) error {
 	cData, rData, err := newConfigAndRules(f.opts)
 	if err != nil {
@@ -669,10 +674,11 @@ func (f *fileConfig) Reload(opts ...ReloadedConfigDataOption) error {
 		opt(newData)
 	}
 
-	// reread the configs
-	cfg, err := newFileConfig(f.opts, newData.configs, newData.rules, f.currentVersion...)
-	if err != nil {
-		return err
+	// reread the configs; as in NewConfig, a non-nil cfg with a non-nil error
+	// means there were only warnings
+	cfg, warnings := newFileConfig(f.opts, newData.configs, newData.rules, f.currentVersion...)
+	if cfg == nil {
+		return warnings
 	}
 
 	// if nothing's changed, we're fine
@@ -691,7 +697,7 @@ func (f *fileConfig) Reload(opts ...ReloadedConfigDataOption) error {
 	for _, cb := range f.callbacks {
 		cb(cfg.mainHash, cfg.rulesHash)
 	}
-	return nil
+	return warnings
 }
 
 // GetHashes returns the current hash values for the main and rules configs.
